@@ -15,7 +15,7 @@ ENGINE = 'cv-fault'
 BUDGET_S = {'quick': 170, 'thorough': 1500}
 CASE_TIMEOUT_S = 600
 STUBS = ['pathos ParallelPool -> SimPool', 'cli.common.signal -> FakeSignal (never fires in this engine)']
-PROBES = ['corpus_case', 'step_cap_discarded', 'fault_entry', 'fault_mid_unit', 'fault_gather', 'multi_fault', 'all_units_of_tx', 'every_unit',
+PROBES = ['corpus_case', 'step_cap_discarded', 'fault_entry', 'fault_mid_unit', 'fault_gather', 'multi_fault', 'all_units_of_tx', 'early_unit_of_rich_tx', 'every_unit',
           'threads_gt_1', 'fusion_unit_failed', 'circ_unit_failed', 'main_unit_failed', 'absorbed',
           'abort_checked', 'later_unit_after_failed_unit', 'parser_rows_case', 'natural_case',
           'natural_unit_failed', 'natural_with_surviving_units']
@@ -38,7 +38,7 @@ ENTRY_EXC = ['ValueError', 'KeyError', 'RuntimeError', 'AssertionError', 'IndexE
 
 
 def n_cases(tier):
-    return 56 if tier == 'quick' else 4000
+    return 84 if tier == 'quick' else 4000
 
 
 def tasks(seed, tier, n):
@@ -167,6 +167,13 @@ def plan_faults(rng, units, gathered):
         tx = rng.choice(sorted({u[1] for u in units}))
         chosen = [u for u in units if u[1] == tx]
         tag = 'all_units_of_tx'
+    elif style < 0.40 and any(sum(1 for v in units if v[1] == u[1]) >= 3 for u in units):
+        # a unit that is NOT the last of a transcript with several units: what it leaves behind meets later units
+        rich = sorted({u[1] for u in units if sum(1 for v in units if v[1] == u[1]) >= 3})
+        tx = rng.choice(rich)
+        mine = [u for u in units if u[1] == tx]
+        chosen = [rng.choice(mine[:-1])]
+        tag = 'early_unit_of_rich_tx'
     else:
         n = min(len(units), rng.choice([1, 1, 1, 2, 2, 3]))
         chosen = rng.sample(units, n)
@@ -237,15 +244,21 @@ def judge(case, f0, a, b, a2, faults):
                     {'only_faulted': sorted(sa - sb)[:5], 'only_clean_skip': sorted(sb - sa)[:5],
                      'n_faulted': len(sa), 'n_clean_skip': len(sb), 'fired': sorted(fired)}))
     else:
-        ea, eb = entries_by_seq(a), entries_by_seq(b)
+        # which units a peptide is attributed to (backbone ids of its header entries and table rows).  The full
+        # entry strings are NOT compared: which variant combinations are listed for a peptide depends on
+        # set-iteration order (DESIGN 5-F), and a unit that fails half-way has already given serial hashes to shared
+        # objects that the clean-skip run hashes later -- the thorough tier met one such case in 1526
+        # (extra entry for the same backbone, same sequences); comparing entry strings was a false alarm
+        ea = {s: sorted({backbone(e) for e in es}) for s, es in a.fasta.items()}
+        eb = {s: sorted({backbone(e) for e in es}) for s, es in b.fasta.items()}
         diff = [s for s in ea if ea[s] != eb[s]]
-        ta = sorted('\t'.join(r) for r in a.table)
-        tb = sorted('\t'.join(r) for r in b.table)
+        ta = sorted({(r[0], backbone(r[1])) for r in a.table if len(r) > 1})
+        tb = sorted({(r[0], backbone(r[1])) for r in b.table if len(r) > 1})
         if diff or ta != tb:
             out.append(('isolation-headers', f'isolation-headers:{kinds_tag}',
-                        {'n_seq_with_different_entries': len(diff),
+                        {'n_seq_with_different_backbones': len(diff),
                          'example': [(s, ea[s], eb[s]) for s in diff[:2]],
-                         'table_rows_differ': ta != tb, 'fired': sorted(fired)}))
+                         'table_attribution_differs': ta != tb, 'fired': sorted(fired)}))
     # 3. sandwich
     # attribution is by what each unit RETURNED in the fault-free run, not by header backbones: a fusion unit also
     # returns donor-side peptides labelled with the plain transcript id (seen under --noncanonical-transcripts,
